@@ -219,7 +219,7 @@ func init() {
 		probe := func(after string) bool {
 			canary.send(canary.frame(0x0002, nil))
 			nrecv++
-			ok := canary.waitRecv(nrecv, 3*time.Second)
+			ok := canary.waitRecv(nrecv, 8*time.Second)
 			// a command round trip through the session manager
 			kid++
 			res := make(chan cmdResult, 1)
@@ -227,7 +227,7 @@ func init() {
 				res <- l.sendActive(canary.idx, k, ckey, consts.P8104QueryTerminalParams, nil, 2*time.Second)
 			}(kid)
 			nrecv++
-			if canary.waitRecv(nrecv, 3*time.Second) {
+			if canary.waitRecv(nrecv, 8*time.Second) {
 				// answer the command we just received (last frame)
 				var last []byte
 				for len(canary.recvCh) > 0 {
@@ -251,7 +251,7 @@ func init() {
 			fp := []byte{0x01, 0x34, byte(r.Intn(10)<<4 | r.Intn(10)), byte(r.Intn(10)<<4 | r.Intn(10)), byte(r.Intn(10)<<4 | r.Intn(10)), byte(r.Intn(10)<<4 | r.Intn(10))}
 			f := l.dial(fp, 0)
 			f.send(f.frame(0x0002, nil))
-			if !f.waitRecv(1, 3*time.Second) {
+			if !f.waitRecv(1, 8*time.Second) {
 				ok = false
 			}
 			f.close(false)
